@@ -31,6 +31,26 @@ PTC_POINTS = [0.5, 1.5, 2.5]
 INNER = [1.5, 2.5]                            # inner table of mc.scan_steady_state (over k_in)
 TICK = 0.1
 
+# How the model's components are NAMED in the rendering (ParMap.tla is silent about names: every scheme must behave
+# alike).  Internally everything is kept under the canonical names; real names appear only at the API boundary.
+NAME_SCHEMES = {
+    "plain": {},
+    "keyword": {"k": "lambda", "x": "class", "q": "yield"},
+    "underscore": {"k": "_k", "k_in": "_k_in", "x": "_x", "q": "_q", "g": "_g", "a": "_a"},
+    "operator": {"k": "k+1", "k_in": "k-in", "x": "S*", "q": "q/2", "kd": "2*k_in"},
+    "mixed": {"k": "k+1", "k_in": "lambda", "x": "_x", "q": "q 2"},
+}
+
+
+def real(sc_or_scheme, canon: str) -> str:
+    scheme = sc_or_scheme if isinstance(sc_or_scheme, str) else sc_or_scheme["cfg"].get("names", "plain")
+    return NAME_SCHEMES[scheme].get(canon, canon)
+
+
+def real_dict(sc_or_scheme, d: dict) -> dict:
+    return {real(sc_or_scheme, k): v for k, v in d.items()}
+
+
 KIND_FN = {
     "steady_state": ("mxlpy.scan", "steady_state"), "time_course": ("mxlpy.scan", "time_course"),
     "protocol": ("mxlpy.scan", "protocol"), "protocol_time_course": ("mxlpy.scan", "protocol_time_course"),
@@ -56,22 +76,25 @@ def f_twice(x):
     return 2.0 * x
 
 
-def build_model(variant: str):
+def build_model(variant: str, scheme: str = "plain"):
     from mxlpy import Model
     from mxlpy.types import InitialAssignment
 
+    def n(c):
+        return real(scheme, c)
+
     m = Model()
-    m.add_variable("x", ORIGINAL["x"])
-    m.add_parameters({"k_in": ORIGINAL["k_in"], "k": ORIGINAL["k"], "g": ORIGINAL["g"], "a": ORIGINAL["a"]})
+    m.add_variable(n("x"), ORIGINAL["x"])
+    m.add_parameters({n("k_in"): ORIGINAL["k_in"], n("k"): ORIGINAL["k"], n("g"): ORIGINAL["g"], n("a"): ORIGINAL["a"]})
     if variant == "ia":
-        m.add_parameter("q", InitialAssignment(fn=f_twice, args=["x"]))
-        m.add_reaction("v_in", f_in_ia, args=["k_in", "q", "g"], stoichiometry={"x": 1.0})
+        m.add_parameter(n("q"), InitialAssignment(fn=f_twice, args=[n("x")]))
+        m.add_reaction("v_in", f_in_ia, args=[n("k_in"), n("q"), n("g")], stoichiometry={n("x"): 1.0})
     elif variant == "derived":
-        m.add_derived("kd", f_twice, args=["k_in"])
-        m.add_reaction("v_in", f_in, args=["kd", "g"], stoichiometry={"x": 1.0})
+        m.add_derived(n("kd"), f_twice, args=[n("k_in")])
+        m.add_reaction("v_in", f_in, args=[n("kd"), n("g")], stoichiometry={n("x"): 1.0})
     else:
-        m.add_reaction("v_in", f_in, args=["k_in", "g"], stoichiometry={"x": 1.0})
-    m.add_reaction("v_out", f_out, args=["x", "k"], stoichiometry={"x": -1.0})
+        m.add_reaction("v_in", f_in, args=[n("k_in"), n("g")], stoichiometry={n("x"): 1.0})
+    m.add_reaction("v_out", f_out, args=[n("x"), n("k")], stoichiometry={n("x"): -1.0})
     return m
 
 
@@ -132,19 +155,19 @@ def table(sc: dict):
     n = sc["cfg"]["n"]
     rows = [row_values(sc, i) for i in range(1, n + 1)]
     cols = list(rows[0])
-    return pd.DataFrame({c: [r[c] for r in rows] for c in cols}, index=LABELS[:n])
+    return pd.DataFrame({real(sc, c): [r[c] for r in rows] for c in cols}, index=LABELS[:n])
 
 
-def protocol_frame():
+def protocol_frame(scheme: str = "plain"):
     from mxlpy import make_protocol
 
-    return make_protocol([(d, {"k_in": v}) for d, v in PROTOCOL])
+    return make_protocol([(d, {real(scheme, "k_in"): v}) for d, v in PROTOCOL])
 
 
 def y0_of(sc: dict) -> dict | None:
     """The y0= argument of the configuration ({x: v} or None): base initial values the rows are applied on top of."""
     v = sc["cfg"].get("y0", 0)
-    return {"x": float(v)} if v and v > 0 else None
+    return {"x": float(v)} if v and v > 0 else None      # canonical name; renamed where it is handed to the library
 
 
 def apply_row(model, vals: dict) -> None:
@@ -202,7 +225,7 @@ def kit_worker(model, *args, _kit: dict, **kw):
     mod, fn = KIND_FN[_kit["kind"]]
     default = inspect.signature(getattr(importlib.import_module(mod), fn)).parameters["worker"].default
     raw = model.get_raw_parameters(as_copy=False)
-    if "a" in raw and raw["a"].value != 0.0:
+    if _kit["a"] in raw and raw[_kit["a"]].value != 0.0:
         kw["integrator"] = failing_integrator
     try:
         return default(model, *args, **kw)
@@ -223,14 +246,15 @@ def run_scan(sc: dict, log: str):
     par = cfg["mode"] == "par"
     mod, fn = KIND_FN[kind]
     f = getattr(importlib.import_module(mod), fn)
-    rows = [row_values(sc, i) for i in range(1, n + 1)]
-    kit = {"rows": rows, "log": log, "par": par, "wave": min(w, n), "dur": sc.get("dur") or [0] * n, "kind": kind}
+    scheme = cfg.get("names", "plain")
+    rows = [real_dict(scheme, row_values(sc, i)) for i in range(1, n + 1)]
+    kit = {"a": real(scheme, "a"), "rows": rows, "log": log, "par": par, "wave": min(w, n), "dur": sc.get("dur") or [0] * n, "kind": kind}
     worker = partial(kit_worker, _kit=kit)
-    model = build_model(cfg["variant"])
+    model = build_model(cfg["variant"], scheme)
     tab = table(sc)
     kw: dict = {"worker": worker}
     if y0_of(sc) is not None:
-        kw["y0"] = dict(y0_of(sc))
+        kw["y0"] = real_dict(scheme, y0_of(sc))
     if kind.startswith("mc."):
         kw["mc_to_scan"] = tab
         kw["max_workers"] = w
@@ -240,13 +264,13 @@ def run_scan(sc: dict, log: str):
     if kind in ("time_course", "mc.time_course"):
         kw["time_points"] = np.array(TIME_POINTS)
     elif kind == "protocol":
-        kw["protocol"] = protocol_frame()
+        kw["protocol"] = protocol_frame(scheme)
         kw["time_points_per_step"] = STEPS_PER
     elif kind == "protocol_time_course":
-        kw["protocol"] = protocol_frame()
+        kw["protocol"] = protocol_frame(scheme)
         kw["time_points"] = np.array(PTC_POINTS)
     elif kind == "mc.scan_steady_state":
-        kw["to_scan"] = pd.DataFrame({"k_in": INNER})
+        kw["to_scan"] = pd.DataFrame({real(scheme, "k_in"): INNER})
     old = multiprocessing.cpu_count
     if par and not kind.startswith("mc."):
         multiprocessing.cpu_count = lambda: w   # scan.* has no worker-count argument: the pool reads the CPU count
@@ -270,12 +294,13 @@ def independent(sc: dict, i: int, inner: float | None = None) -> dict:
 
     kind = sc["cfg"]["kind"]
     vals = row_values(sc, i) if i else {}
-    m = copy.deepcopy(build_model(sc["cfg"]["variant"]))
+    scheme = sc["cfg"].get("names", "plain")
+    m = copy.deepcopy(build_model(sc["cfg"]["variant"], scheme))
     if y0_of(sc) is not None:       # row values take precedence over y0, y0 over the model's own initial values
-        m.update_variables(dict(y0_of(sc)))
-    apply_row(m, vals)
+        m.update_variables(real_dict(scheme, y0_of(sc)))
+    apply_row(m, real_dict(scheme, vals))
     if inner is not None:
-        m.update_parameters({"k_in": inner})
+        m.update_parameters({real(scheme, "k_in"): inner})
     integ = failing_integrator if vals.get("a", 0.0) != 0.0 else None
     try:
         s = Simulator(m, integrator=integ)
@@ -284,9 +309,9 @@ def independent(sc: dict, i: int, inner: float | None = None) -> dict:
         elif kind in ("time_course", "mc.time_course"):
             s = s.simulate_time_course(np.array(TIME_POINTS))
         elif kind == "protocol":
-            s = s.simulate_protocol(protocol_frame(), time_points_per_step=STEPS_PER)
+            s = s.simulate_protocol(protocol_frame(scheme), time_points_per_step=STEPS_PER)
         else:
-            s = s.simulate_protocol_time_course(protocol_frame(), time_points=np.array(PTC_POINTS))
+            s = s.simulate_protocol_time_course(protocol_frame(scheme), time_points=np.array(PTC_POINTS))
         res = s.get_result().value
     except ZeroDivisionError:
         return {"failed": "raise"}
